@@ -22,7 +22,9 @@ fn setup_forms() -> Vec<Sx> {
     read_all(
         "(define %abort-k #f)
          (define (%probe a) (+ 1 (car a)))
-         (define (%probe-deep n a) (if (= n 0) (%probe a) (+ 1 (%probe-deep (- n 1) a))))",
+         (define (%probe-deep n a) (if (= n 0) (%probe a) (+ 1 (%probe-deep (- n 1) a))))
+         (define %fault-vec (vector 'v0 'v1 'v2))
+         (define %fault-str (make-string 3 #\\s))",
     )
     .unwrap()
 }
@@ -245,6 +247,8 @@ pub struct Burst {
 
 #[derive(Debug, Clone, PartialEq)]
 struct BurstObs {
+    /// heap capacity as the failures left it (no collection forced by the harness)
+    heap_capacity: usize,
     stack_capacity: usize,
     used_after_collection: usize,
     probe_outcome: Outcome,
@@ -271,9 +275,9 @@ fn run_burst(b: &Burst, k: u64) -> Result<BurstObs, String> {
     for _ in 0..k {
         let o = if compile_time {
             // the failing form itself is rejected at read/compile time
-            sim.eval_form(&format!("(begin (set! %counter (+ %counter 1)) {})", fault))
+            sim.eval_form(&format!("(begin (set! %counter (+ %counter 1)) '(g 1 2 3 4 5 6 7 8 9 10 11 12 \"garbage\") {})", fault))
         } else {
-            sim.eval_form(&format!("(begin (set! %counter (+ %counter 1)) (%dive {}))", b.depth))
+            sim.eval_form(&format!("(begin (set! %counter (+ %counter 1)) (vector '(g 1 2 3 4 5 6 7 8 9 10 11 12) (make-vector 8 %counter)) (%dive {}))", b.depth))
         };
         if !o.outcome.is_error() {
             return Err(format!("the injected failure did not fail: {}", o.outcome.brief()));
@@ -284,7 +288,7 @@ fn run_burst(b: &Burst, k: u64) -> Result<BurstObs, String> {
     }
     // a later form that uses every derived form of the prelude, procedures, promises and templates
     let later = sim.eval_form(
-        "(list 'after (%probe (list 41)) \
+        "(list 'after (%probe (list 41)) %fault-vec %fault-str \
            (let ((a 1)) (let* ((b a)) (letrec ((c (lambda () b))) \
              (cond ((= a 2) 'no) (else (case b ((1) (when #t (unless #f (and a (or #f (c)))))) (else 'no))))))) \
            (let loop ((i 0)) (if (< i 3) (loop (+ i 1)) i)) \
@@ -294,9 +298,11 @@ fn run_burst(b: &Burst, k: u64) -> Result<BurstObs, String> {
     );
     let probe = sim.eval_form("(%probe-deep 2 5)");
     let stack_capacity = sim.vm.verif_stack().len();
+    let heap_capacity = sim.vm.verif_heap().capacity();
     sim.vm.verif_collect();
     let used = sim.vm.verif_heap().used_size();
     Ok(BurstObs {
+        heap_capacity,
         stack_capacity,
         used_after_collection: used,
         probe_outcome: probe.outcome,
@@ -341,6 +347,25 @@ pub fn evaluate_burst(b: &Burst) -> Result<Option<(String, String)>, String> {
             "C07 burst stack-capacity-accumulates".into(),
             format!("{}: stack capacity {} after k failures, {} after {}", desc, many.stack_capacity, few.stack_capacity, 10.min(b.k)),
         )));
+    }
+    // memory held while the failures go on (the VM's own collection policy, nothing forced): the
+    // heap may finish its warm-up between 10 and k failures, but must not grow again between k
+    // and 3k
+    if many.heap_capacity > few.heap_capacity && b.k >= 100 {
+        let more = run_burst(b, b.k * 3)?;
+        if more.heap_capacity > many.heap_capacity {
+            return Ok(Some((
+                "C07 burst heap-capacity-accumulates".into(),
+                format!(
+                    "{}: heap capacity {} cells after {} failures, {} after k, {} after 3k: failed evaluations accumulate memory",
+                    desc,
+                    few.heap_capacity,
+                    10.min(b.k),
+                    many.heap_capacity,
+                    more.heap_capacity
+                ),
+            )));
+        }
     }
     if many.used_after_collection > few.used_after_collection {
         return Ok(Some((
@@ -448,6 +473,8 @@ fn one_run(seed: u64, run: u64, max_positions: usize) -> RunResult {
         base.extend(s.forms);
         base.push(s.dump);
     }
+    // the objects that failing mutators were aimed at
+    base.push(read_one("(list %fault-vec %fault-str)").unwrap());
     // a failing probe at the end so that a stack trace is always compared
     base.push(read_one("(%probe-deep 1 5)").unwrap());
     let mut case = Case::new(vec![]);
@@ -474,8 +501,8 @@ fn one_run(seed: u64, run: u64, max_positions: usize) -> RunResult {
         sample: None,
         workload: if use_g05 { "G05" } else { "G01" },
     };
-    // target form: the one with most expression positions among the generated forms (not the last two)
-    let candidates: Vec<usize> = (setup_len..base.len() - 2).collect();
+    // target form: the one with most expression positions among the generated forms (not the last three)
+    let candidates: Vec<usize> = (setup_len..base.len() - 3).collect();
     if candidates.is_empty() {
         return res;
     }
